@@ -16,7 +16,7 @@ ID = 'C05'
 LEVEL = 'exploration'
 RULE = ('One phase under test (PUT) placed in a position template {first, after PASS/FAIL/SKIP record, inside a subtest, in '
         'a group teardown, as test_start-follower} x PhaseOptions product (repeat_limit, force_repeat, repeat_on_measurement_fail, '
-        'run_if, stop_on_measurement_fail, timeout) x per-invocation behaviour sequences (<=4 invocations; result x measurement '
+        'run_if, stop_on_measurement_fail, timeout, body wrapped by monitors.monitors()) x per-invocation behaviour sequences (<=4 invocations; result x measurement '
         'class pass/fail/unset) x diagnoser set {none, pass, failure, raising, raising+failure, garbage} x allow_unset. '
         'Hypothesis draws from the whole product; a decision table (options x 2-invocation behaviours x diagnosers x positions) '
         'is enumerated in seed-selected shards (quick) or completely (thorough).  Oracle: reference interpreter - exact list of '
@@ -74,7 +74,10 @@ def mk_put(opts, behaviours, diagset, nmeas=1):
     if opts.get('to') == 0:  # a timeout phase: the body may never start, so it sets nothing
       sets, end = {}, 'BLOCK'
     script.append({'sets': sets, 'end': end})
-  return progs.phase(1, m=meas, d=DIAGSETS[diagset], script=script, **opts)
+  put = progs.phase(1, m=meas, d=DIAGSETS[diagset], script=script, **{k: v for k, v in opts.items() if k != 'mon'})
+  if opts.get('mon') and opts.get('to') != 0:
+    put['monitored'] = 'inner'     # @monitors.monitors(...) directly around the body, everything else declared outside
+  return put
 
 
 @st.composite
@@ -94,6 +97,8 @@ def cases(draw):
       o['rot'] = True
     if (o.get('rot') or o.get('fr')) and (o.get('rl') or 3) > 2:
       o['rl'] = 2
+  if not timeout and draw(st.integers(0, 7)) == 0:
+    o['mon'] = True
   n = draw(st.integers(1, 4))
   beh = [(draw(st.sampled_from(RESULTS + ['NONE', 'REPEAT', 'REPEAT'])), draw(st.sampled_from('ppfu'))) for _ in range(n)]
   ds = draw(st.sampled_from(sorted(DIAGSETS)))
@@ -170,8 +175,20 @@ def table(tier):
             yield {'o': o, 'beh': [list(b1), list(b2)], 'diag': ds, 'pos': pos, 'nmeas': 1, 'allow_unset': False, 'sof': None}
 
 
+def monitored_table():
+  """Every result x measurement class for a phase whose body is wrapped by a monitor, alone and with repeat options."""
+  for o in ({'mon': True}, {'mon': True, 'rl': 2}, {'mon': True, 'fr': True, 'rl': 2}, {'mon': True, 'run_if': 'F'}, {'mon': True, 'somf': True}):
+    for e in RESULTS:
+      for m in 'pf':
+        for pos in ('first', 'in_subtest'):
+          for ds in ('none', 'fail'):
+            yield {'o': o, 'beh': [[e, m], ['NONE', 'p']], 'diag': ds, 'pos': pos, 'nmeas': 1, 'allow_unset': False, 'sof': None}
+
+
 def plan(tier, seed):
   jobs = []
+  for s in range(8):
+    jobs.append({'kind': 'montable', 'name': 'montable%d' % s, 'shard': s, 'nshards': 8})
   n = 500 if tier == 'quick' else 10000
   for i in range(16):
     jobs.append({'kind': 'hyp', 'name': 'hyp%d' % i, 'hseed': seed * 1000 + i, 'n': n})
@@ -189,6 +206,16 @@ def run_job(job, acct):
     runner.run_regress(sys.modules[__name__], job, acct)
   elif job['kind'] == 'hyp':
     hyp.search(acct, cases(), check, seed=job['hseed'], max_examples=job['n'], known=known)
+  elif job['kind'] == 'montable':
+    for i, c in enumerate(monitored_table()):
+      if i % job['nshards'] != job['shard']:
+        continue
+      r = check(c)
+      acct.case(c, r.nontrivial, r.classes + ['monitored-table'])
+      for sig, detail in r.violations:
+        (acct.known if sig in known else acct.violation)(sig, c, detail)
+    if job['shard'] == 0:
+      acct.exhaustive_parts.append('monitored phase: 5 option sets x 12 results x {pass, fail} x 2 positions x 2 diagnoser sets')
   elif job['kind'] == 'table':
     for i, c in enumerate(table(job['tier'])):
       if i % job['nshards'] != job['shard']:
